@@ -680,7 +680,7 @@ func checkC17(c *Ctx, rt *rapid.T) {
 		// enough history for git's automatic maintenance thresholds (100 commits
 		// without a commit-graph, ...): nothing git-sizer runs may trip them
 		n := g.Int(100, 180, "chainlen")
-		manyRefs := g.Bool("chainrefs") && !refConflicts(refSet(w), "refs/tags/chain")
+		manyRefs := !refConflicts(refSet(w), "refs/tags/chain")
 		prev := ""
 		for i := 0; i < n; i++ {
 			cs := CommitSpec{Tree: EmptyTreeID, Author: ident("A", int64(1200000000+i), "+0000"), Committer: ident("C", int64(1200000000+i), "+0000"), Message: fmt.Sprintf("chain %d\n", i)}
